@@ -20,10 +20,11 @@ from gen import c03gen as G
 
 ID = "C03"
 PROPS = ["IsoVerif/Props/C03.lean", "IsoVerif/Props/C03Hist.lean", "IsoVerif/Props/C03Build.lean",
-         "IsoVerif/Props/C03Merge.lean", "IsoVerif/Props/C03Whole.lean", "IsoVerif/Props/C03Paths.lean"]
+         "IsoVerif/Props/C03Merge.lean", "IsoVerif/Props/C03Whole.lean", "IsoVerif/Props/C03Paths.lean",
+         "IsoVerif/Props/C03Text.lean", "IsoVerif/Props/C03TextOrder.lean"]
 TARGETS = ["IsoVerif.Props.C03", "IsoVerif.Props.C03Hist", "IsoVerif.Props.C03Build", "IsoVerif.Props.C03Merge",
-           "IsoVerif.Props.C03Whole", "IsoVerif.Props.C03Paths"]
-GEN_DEPS = ["Prims", "Enums", "Constants", "Strategies", "ModelConstruction"]
+           "IsoVerif.Props.C03Whole", "IsoVerif.Props.C03Paths", "IsoVerif.Props.C03Text", "IsoVerif.Props.C03TextOrder"]
+GEN_DEPS = ["Prims", "Enums", "Constants", "Strategies", "ModelConstruction", "GtfFormat"]
 LEVEL = "proof"
 RULE = ("dump call histories: exhaustive universe (every single call of <=2 models from a 12-model pool x 2 contexts, "
         "all ordered pairs of a sample of them) + seeded random histories (<=4 calls, <=5 models, recurring genes, "
@@ -33,7 +34,11 @@ RULE = ("dump call histories: exhaustive universe (every single call of <=2 mode
         "implementation; distinct by (op, input)")
 TRUSTED = ["identifiers are interned to naturals, strands to 0/1/2, feature kinds to integers order-isomorphic to the "
            "Python string order of the kind names (harness/props/C03.py: KINDS)",
-           "the attribute column of the GTF (source, exon_id, additional attributes) is outside the model",
+           "the attribute column of the GTF (source, exon_id, additional attributes) is outside the interned model "
+           "(Model/Gtf.lean); it is modelled at text level by Model/GtfText.lean (props/C03text.py: raw text compared byte for byte)",
+           "text level: feature_attributes of a GeneInfo is a defaultdict(str); the empty entry a read of a missing key inserts "
+           "is not modelled (visible only for two models with one transcript_id); gffutils' attribute order and its order of "
+           "transcripts with equal start are taken as returned by the real database",
            "gffutils returns the annotation's genes / transcripts / exons as written (reference path compared on real databases)",
            "harness/pipeline.parse_gtf and the GTF validator of this file"]
 ASSUMPTIONS = ["assumption interface of the unmodelled intron graph (monitored on every pipeline output, not proved): "
@@ -488,6 +493,9 @@ def correspondence(ctx):
         # ---- reference path on real gffutils databases
         for _ in range(40 if quick else 400):
             extended_case(ctx, rng, scratch)
+        # ---- text level: raw lines, attribute column, GeneInfo-side attribute assembly (props/C03text.py)
+        from props import C03text
+        C03text.correspondence(ctx)
         # ---- constructors
         cases = []
         for _ in range(2500 if quick else 25000):
@@ -685,6 +693,11 @@ def region_index(regs, span):
 def check_outputs(ds, files, with_annotation, fai):
     """all clauses on one pipeline run; -> list of (kind, detail)"""
     fails = []
+    from props import C03text
+    for nm in ("transcript_models", "extended_annotation"):      # text-level clauses on the raw files
+        if files.get(nm) and os.path.exists(files[nm]) and not files[nm].endswith(".gz"):
+            with open(files[nm], newline="") as f:
+                fails += C03text.text_failures(f.read(), nm)[:5]
     tm = P.parse_gtf(files["transcript_models"])
     ref = {}
     if with_annotation:
@@ -1006,6 +1019,8 @@ def _fail(ctx, kind, inp, det, cap=3):
 def oracle(ctx, disagreements, broken):
     rng = ctx.rng
     quick = ctx.tier == "quick"
+    from props import C03text
+    C03text.oracle(ctx, disagreements, broken)
     scratch = vlib.scratch_dir("isoverif_c03o_")
     n_hist = 0
     try:
@@ -1276,6 +1291,9 @@ def replay(ctx, failure):
     inp = failure["input"]
     kind = failure["kind"]
     lvl = inp.get("level")
+    if lvl == "text":
+        from props import C03text
+        return C03text.replay(ctx, failure)
     if lvl == "history":
         scratch = vlib.scratch_dir("isoverif_c03r_")
         try:
